@@ -12,6 +12,7 @@ import (
 	"sync"
 	"sync/atomic"
 	"time"
+	"unicode/utf8"
 
 	"github.com/ash2k/stager/wait"
 	"github.com/cenkalti/backoff"
@@ -449,8 +450,72 @@ func translateToProtobufV2(metricMap *gostatsd.MetricMap) *pb.RawMessageV2 {
 	return &pbMetricMap
 }
 
+// validUTF8MetricMap returns metricMap itself when every string in it can be carried in a protobuf
+// string field. Otherwise it returns a copy in which invalid UTF-8 sequences (tags, sources and set
+// members are arbitrary client supplied bytes) are replaced by U+FFFD, merging series which thereby
+// become identical. Without this a single such tag makes proto.Marshal reject the whole message,
+// which holds the merged data of every client of that flush.
+func validUTF8MetricMap(metricMap *gostatsd.MetricMap) *gostatsd.MetricMap {
+	valid := true
+	check := func(name, tagsKey string, source gostatsd.Source, tags gostatsd.Tags) {
+		valid = valid && utf8.ValidString(name) && utf8.ValidString(tagsKey) && utf8.ValidString(string(source))
+		for _, tag := range tags {
+			valid = valid && utf8.ValidString(tag)
+		}
+	}
+	metricMap.Counters.Each(func(name, tagsKey string, c gostatsd.Counter) { check(name, tagsKey, c.Source, c.Tags) })
+	metricMap.Gauges.Each(func(name, tagsKey string, g gostatsd.Gauge) { check(name, tagsKey, g.Source, g.Tags) })
+	metricMap.Timers.Each(func(name, tagsKey string, t gostatsd.Timer) { check(name, tagsKey, t.Source, t.Tags) })
+	metricMap.Sets.Each(func(name, tagsKey string, s gostatsd.Set) {
+		check(name, tagsKey, s.Source, s.Tags)
+		for value := range s.Values {
+			valid = valid && utf8.ValidString(value)
+		}
+	})
+	if valid {
+		return metricMap
+	}
+
+	fix := func(s string) string { return strings.ToValidUTF8(s, "\uFFFD") }
+	fixAll := func(source gostatsd.Source, tags gostatsd.Tags) (gostatsd.Source, gostatsd.Tags, string) {
+		fixedTags := make(gostatsd.Tags, len(tags))
+		for i, tag := range tags {
+			fixedTags[i] = fix(tag)
+		}
+		fixedSource := gostatsd.Source(fix(string(source)))
+		return fixedSource, fixedTags, gostatsd.FormatTagsKey(fixedSource, fixedTags)
+	}
+	out := gostatsd.NewMetricMap(metricMap.Forwarded)
+	metricMap.Counters.Each(func(name, _ string, c gostatsd.Counter) {
+		var tagsKey string
+		c.Source, c.Tags, tagsKey = fixAll(c.Source, c.Tags)
+		out.MergeCounter(fix(name), tagsKey, c)
+	})
+	metricMap.Gauges.Each(func(name, _ string, g gostatsd.Gauge) {
+		var tagsKey string
+		g.Source, g.Tags, tagsKey = fixAll(g.Source, g.Tags)
+		out.MergeGauge(fix(name), tagsKey, g)
+	})
+	metricMap.Timers.Each(func(name, _ string, t gostatsd.Timer) {
+		var tagsKey string
+		t.Source, t.Tags, tagsKey = fixAll(t.Source, t.Tags)
+		out.MergeTimer(fix(name), tagsKey, t)
+	})
+	metricMap.Sets.Each(func(name, _ string, s gostatsd.Set) {
+		var tagsKey string
+		s.Source, s.Tags, tagsKey = fixAll(s.Source, s.Tags)
+		values := make(map[string]struct{}, len(s.Values))
+		for value := range s.Values {
+			values[fix(value)] = struct{}{}
+		}
+		s.Values = values
+		out.MergeSet(fix(name), tagsKey, s)
+	})
+	return out
+}
+
 func (hfh *HttpForwarderHandlerV2) postMetrics(ctx context.Context, metricMap *gostatsd.MetricMap, dynHeaderTags string, batchId uint64) {
-	message := translateToProtobufV2(metricMap)
+	message := translateToProtobufV2(validUTF8MetricMap(metricMap))
 	hfh.post(ctx, message, dynHeaderTags, batchId, "metrics", "/v2/raw")
 }
 
